@@ -126,8 +126,13 @@ type c17Mount struct {
 	Sub    string
 	Exclude bool
 }
+type c17Sib struct {
+	Name string
+	Node *c17Node
+}
 type c17Case struct {
 	Root    *c17Node
+	Sibs    []c17Sib // other directories next to the output directory on the host (<tmp>/h1/h2/<Name>)
 	Mounts  []c17Mount
 	Secrets []string
 	Store   map[string][]byte
@@ -467,7 +472,129 @@ func c17Gen(r *vRand) *c17Case {
 		c.Root.add("cycB", &c17Node{Kind: "link", Target: "cycA"})
 		tag("link=cycle")
 	}
+	// mount points whose NAME extends another path's name without a slash (a sibling, not a descendant).  Drawn last,
+	// so that the rest of the case is the same as without this stratum.
+	if r.Chance(1, 4) {
+		c17NameExt(r, c)
+	}
 	return c
+}
+
+// c17NameExt adds one mount whose mount point has another path as a plain string prefix but does not lie below it:
+// <output dir><ext> (a collection, or a second "tmp" mount together with a host directory out<ext> next to the output
+// directory), <directory of the output tree><ext>, <another collection's mount point><ext>; and symlinks to the
+// shorter path at the top of the output tree and inside a directory, so that the copier looks for "mounts below" it.
+func c17NameExt(r *vRand, c *c17Case) {
+	tag := func(t string) { c.Tags = append(c.Tags, t) }
+	ext := []string{"bar", "2", "-old", ".d", "_1", "x/ref"}[r.Intn(6)]
+	// a small collection with recognisable content (now and then a generated one)
+	data := []byte("content of the mount at ..." + ext)
+	h := fmt.Sprintf("%x", md5.Sum(data))
+	text := fmt.Sprintf(". %s+%d 0:%d:x.txt\n", h, len(data), len(data))
+	if r.Bool() {
+		text += fmt.Sprintf("./sub %s+%d 3:4:y\n", h, len(data))
+	}
+	store := map[string][]byte{h: data}
+	if r.Chance(1, 4) {
+		m := c10Gen(r)
+		text, store = m.Text, m.Store
+	}
+	addColl := func(mp string) {
+		for k, d := range store {
+			c.Store[k] = d
+		}
+		c.Mounts = append(c.Mounts, c17Mount{Path: mp, Kind: "collection", Text: text})
+	}
+	// host directory for a mount point below the output dir: <parent>/<name><ext> (for "x/ref": <name>x/ref)
+	addHostDir := func(pn *c17Node, name string) bool {
+		d := c17Dir()
+		if r.Bool() {
+			d.add("junk", &c17Node{Kind: "file", Data: "hidden by the mount"})
+		}
+		if i := strings.Index(ext, "/"); i >= 0 {
+			up := c17Dir()
+			up.add(ext[i+1:], d)
+			if r.Bool() {
+				up.add("note", &c17Node{Kind: "file", Data: "next to the mount point"})
+			}
+			return pn.add(name+ext[:i], up)
+		}
+		return pn.add(name+ext, d)
+	}
+	var dirs, others []string
+	c17Paths(c.Root, "", &dirs, &others)
+	// links to `to` (relative to the output dir): one at the top, now and then one inside another directory
+	linkTo := func(to string) {
+		tgt := to
+		if r.Bool() {
+			tgt = c17Ctr + "/" + to
+		}
+		c.Root.add("nxl", &c17Node{Kind: "link", Target: tgt})
+		if len(dirs) > 0 && r.Bool() {
+			q := dirs[r.Intn(len(dirs))]
+			qn := c17Lookup(c.Root, q)
+			if q != to && !strings.HasPrefix(q+"/", to+"/") && qn != nil && qn.Kind == "dir" {
+				qn.add("nxn", &c17Node{Kind: "link", Target: c17Rel(q, to)})
+			}
+		}
+	}
+	var outside []string // collection mount points outside the output dir
+	for _, m := range c.Mounts {
+		if m.Kind == "collection" && !m.Exclude && !strings.HasPrefix(m.Path, c17Ctr+"/") {
+			outside = append(outside, m.Path)
+		}
+	}
+	switch v := r.Intn(8); {
+	case v < 2: // a collection next to the output dir: /ctr/outdir2, /ctr/outdirx/ref
+		addColl(c17Ctr + ext)
+		if r.Bool() {
+			c.Root.add("nxo", &c17Node{Kind: "link", Target: c17Ctr + ext + []string{"", "/x.txt"}[r.Intn(2)]})
+		}
+		tag("mountpoint=extends-outdir-name")
+	case v == 2: // a second tmp mount next to the output dir, and the host directory of the same name next to out/
+		e := strings.Replace(ext, "/", "", -1)
+		sib := c17Dir()
+		sib.add("x", &c17Node{Kind: "file", Data: "file of the other tmp mount"})
+		y := c17Dir()
+		y.add("z", &c17Node{Kind: "file", Data: "deeper"})
+		sib.add("y", y)
+		c.Sibs = append(c.Sibs, c17Sib{Name: "out" + e, Node: sib})
+		c.Mounts = append(c.Mounts, c17Mount{Path: c17Ctr + e, Kind: "tmp"})
+		c.Root.add("nxt", &c17Node{Kind: "link", Target: []string{c17Ctr + e, "../outdir" + e}[r.Intn(2)] + []string{"/x", "/y", "/y/z", ""}[r.Intn(4)]})
+		tag("tmp-mount=extends-outdir-name+host-sibling")
+	case v == 3 && len(outside) > 0: // next to another collection's mount point: /mnt/c1 and /mnt/c12
+		base := outside[r.Intn(len(outside))]
+		addColl(base + ext)
+		c.Root.add("nxl", &c17Node{Kind: "link", Target: base})
+		if r.Bool() {
+			c.Root.add("nxm", &c17Node{Kind: "link", Target: base + ext})
+		}
+		tag("mountpoint=extends-mount-name")
+	default: // next to a directory of the output tree (which may itself be a mount point or hold one)
+		if len(dirs) == 0 || r.Chance(1, 5) {
+			foo := c17Dir()
+			foo.add("a.txt", &c17Node{Kind: "file", Data: "in foo"})
+			if !c.Root.add("foo", foo) {
+				return
+			}
+			dirs = append(dirs, "foo")
+		}
+		d := dirs[r.Intn(len(dirs))]
+		parent, name := "", d
+		if i := strings.LastIndex(d, "/"); i >= 0 {
+			parent, name = d[:i], d[i+1:]
+		}
+		pn := c17Lookup(c.Root, parent)
+		if pn == nil || pn.Kind != "dir" || !addHostDir(pn, name) {
+			return
+		}
+		addColl(c17Ctr + "/" + d + ext)
+		linkTo(d)
+		if r.Chance(1, 3) {
+			c.Root.add("nxm", &c17Node{Kind: "link", Target: d + ext})
+		}
+		tag("mountpoint=extends-dir-name")
+	}
 }
 
 type c17Entry struct {
@@ -518,6 +645,11 @@ func c17Run(c *c17Case) (outcome string, list []c17Entry, detail string) {
 	out := tmp + "/h1/h2/out"
 	if err := c.Root.materialize(out); err != nil {
 		return "infra", nil, err.Error()
+	}
+	for _, sb := range c.Sibs {
+		if err := sb.Node.materialize(tmp + "/h1/h2/" + sb.Name); err != nil {
+			return "infra", nil, err.Error()
+		}
 	}
 	kc := &c17Keep{blocks: map[string][]byte{}}
 	for h, d := range c.Store {
@@ -602,7 +734,11 @@ func TestVerifC17(t *testing.T) {
 		if outcome == "infra" {
 			t.Fatalf("case %d: %s", i, detail)
 		}
-		host := "(Dir [(\"h1\", Dir [(\"h2\", Dir [(\"out\", " + c.Root.term()[1:len(c.Root.term())-1] + ")])])])"
+		h2 := []string{"(\"out\", " + c.Root.term()[1:len(c.Root.term())-1] + ")"}
+		for _, sb := range c.Sibs {
+			h2 = append(h2, "("+c10Str(sb.Name)+", "+sb.Node.term()[1:len(sb.Node.term())-1]+")")
+		}
+		host := "(Dir [(\"h1\", Dir [(\"h2\", Dir " + gList(h2) + ")])])"
 		var ms, ss, st []string
 		for _, m := range c.Mounts {
 			ms = append(ms, fmt.Sprintf("(%s, M %s %s %s false %s)", c10Str(m.Path), c10Str(m.Kind), c10Str(m.Text), c10Str(m.Sub), gBool(m.Exclude)))
@@ -633,7 +769,7 @@ func TestVerifC17(t *testing.T) {
 		}
 		term := fmt.Sprintf("{| c_cfg := {| c_host := %s; c_hout := [\"h1\"; \"h2\"; \"out\"]; c_ctr := %s;\n     c_mounts := %s; c_secrets := %s |};\n   c_store := %s;\n   o_res := %s |}",
 			host, c10Str(c17Ctr), gList(ms), gList(ss), gList(st), obs)
-		desc := map[string]interface{}{"index": i, "tree": c.Root, "mounts": c.Mounts, "secrets": c.Secrets, "outcome": outcome,
+		desc := map[string]interface{}{"index": i, "tree": c.Root, "host_siblings": c.Sibs, "mounts": c.Mounts, "secrets": c.Secrets, "outcome": outcome,
 			"detail": detail, "listing": list, "tags": c.Tags}
 		tags := append([]string{"outcome=" + outcome, fmt.Sprintf("entries=%d", bucket17(c.Root.count()))}, c.Tags...)
 		cs.Add(i, term, desc, c.Root.count() >= 4, tags...)
